@@ -899,6 +899,22 @@ def e1_even_power(ctx):
                 ctx.undecided("C18-E1", site, f"{qual}: the edge direction `vertices[b] - vertices[a]` of a feature edge is not recognised",
                               "the constraint is documented as tangent to the border / feature edge")
             continue
+        # a non-zero literal written as a constraint next to the computed ones: the value of a constrained element is fixed
+        # without looking at the basis of the connection (it is tangent to the edge only for the connection the class builds itself)
+        for st in var_stores:
+            if not isinstance(st, ast.Assign) or taint_of(st.value, tainted, st):
+                continue
+            cv = S.canon(st.value, st)
+            k = _const_complex(cv) if isinstance(cv, ast.Call) else hj_scope.fold(cv)
+            if not isinstance(k, (int, float, complex)) or isinstance(k, bool) or k == 0:
+                continue
+            conds = " ".join(au.src(t) for t, _p in S.conds(st, stop=fn))
+            if "conn" in conds or "custom" in conds:
+                ctx.undecided("C18-E1", ctx.site(mod, fn0, st), f"{qual}: a literal constraint is stored under a condition on the connection", "")
+            else:
+                ctx.fail("C18-E1", ctx.site(mod, fn0, st), f"{qual}: a constrained element receives the literal `{au.src(st.value)[:30]}` instead of a value computed from the direction of its edge",
+                         f"`{au.src(st)[:80]}`: the representation complex of the edge is +-1 only in a basis whose first vector is that edge; with a "
+                         "connection given through `custom_connection` (or built from another feature set) the frame is locked on the basis axis, not on the border / feature edge")
         pows.clear()
         leaks = []
         for st in au.stmts(fn.body):
